@@ -208,8 +208,77 @@ fn check(c: &Case, info: &mut Info) -> Result<(), String> {
     Ok(())
 }
 
+/// Raw copies of ZIP64-sized source entries (hand-laid-out sparse source: declared uncompressed /
+/// compressed sizes on either side of 4 GiB, payload a zero run that is never decoded) into a writer on
+/// a sparse sink, between two normally written neighbours.
+fn check_straddle(sizes: &[(u64, u64)]) -> Result<(), String> {
+    use crate::sio::{Shared, SparseFile};
+    use std::io::{Seek, SeekFrom, Write};
+    let (src, expect) = super::c08::foreign_large2(sizes);
+    let mut rd = src.clone();
+    rd.seek(SeekFrom::Start(0)).map_err(|e| e.to_string())?;
+    let mut za = zip::ZipArchive::new(rd).map_err(|e| format!("harness: source unreadable: {e}"))?;
+    let dst = Shared::new(SparseFile::new());
+    let o = zip::write::FileOptions::default().compression_method(zip::CompressionMethod::Deflated).last_modified_time(zip::DateTime::default());
+    {
+        let mut w = std::mem::ManuallyDrop::new(ZipWriter::new(dst.clone()));
+        w.start_file("before.txt", o).map_err(|e| format!("start_file: {e}"))?;
+        w.write_all(b"neighbour before the copies").map_err(|e| format!("write: {e}"))?;
+        for i in 0..expect.len() {
+            let f = za.by_index_raw(i).map_err(|e| format!("harness: by_index_raw({i}): {e}"))?;
+            w.raw_copy_file(f).map_err(|e| format!("raw_copy_file of a source entry with sizes {:?} refused: {e}", sizes[i]))?;
+        }
+        w.start_file("after.txt", o).map_err(|e| format!("start_file: {e}"))?;
+        w.write_all(b"neighbour after the copies").map_err(|e| format!("write: {e}"))?;
+        w.finish().map_err(|e| format!("finish: {e}"))?;
+    }
+    // independent strict view: local header == central record (sizes incl. the local ZIP64 record)
+    let p = parse::parse(&dst, parse::Opts { lenient: false, allow_leading_gap: false, decode_limit: 0, allow_trailing: false }).map_err(|e| format!("destination archive is not valid: {e}"))?;
+    if p.entries.len() != expect.len() + 2 {
+        return Err(format!("destination has {} entries, expected {}", p.entries.len(), expect.len() + 2));
+    }
+    let mut rd = dst.clone();
+    rd.seek(SeekFrom::Start(0)).map_err(|e| e.to_string())?;
+    let mut dz = zip::ZipArchive::new(rd).map_err(|e| format!("destination cannot be opened: {e}"))?;
+    for (i, (name, us, cs, crc, _off)) in expect.iter().enumerate() {
+        let e = &p.entries[i + 1];
+        if e.usize_ != *us || e.csize != *cs || e.crc != *crc || e.name != name.as_bytes() {
+            return Err(format!("copy of {name}: independent parser recovers usize {} csize {} crc {:#x}, source has {us} / {cs} / {crc:#x}", e.usize_, e.csize, e.crc));
+        }
+        let f = dz.by_index_raw(i + 1).map_err(|e| format!("copy of {name}: by_index_raw: {e}"))?;
+        if f.size() != *us || f.compressed_size() != *cs || f.crc32() != *crc {
+            return Err(format!("copy of {name}: reader reports usize {} csize {}, source has {us} / {cs}", f.size(), f.compressed_size()));
+        }
+        drop(f);
+        // the streaming reader sees the local header only
+        let mut rd = dst.clone();
+        rd.seek(SeekFrom::Start(e.header_start)).map_err(|e| e.to_string())?;
+        match zip::read::read_zipfile_from_stream(&mut crate::sio::NoSeek(rd)) {
+            Ok(Some(f)) => {
+                if f.size() != *us || f.compressed_size() != *cs {
+                    let m = format!("copy of {name}: the local header states usize {} csize {}, source has {us} / {cs}", f.size(), f.compressed_size());
+                    std::mem::forget(f); // do not drain gigabytes
+                    return Err(m);
+                }
+                std::mem::forget(f);
+            }
+            Ok(None) => return Err(format!("copy of {name}: no local header where the central directory points")),
+            Err(x) => return Err(format!("copy of {name}: local header unreadable: {x}")),
+        }
+    }
+    for (k, want) in [(0usize, &b"neighbour before the copies"[..]), (expect.len() + 1, &b"neighbour after the copies"[..])] {
+        let mut f = dz.by_index(k).map_err(|e| format!("neighbour {k}: {e}"))?;
+        let mut v = Vec::new();
+        f.read_to_end(&mut v).map_err(|e| format!("neighbour {k} no longer reads: {e}"))?;
+        if v != want {
+            return Err(format!("neighbour {k} of the raw copies is damaged"));
+        }
+    }
+    Ok(())
+}
+
 pub fn run(ctx: &mut Ctx) {
-    ctx.rule("case = source archive (crate-written program or independent-builder spec: all methods incl. ids the crate cannot decode, data descriptors, forced ZIP64, any DOS time bits, DOS/Unix/other attributes, CP437 names) opened through a reader with a generated short-read schedule x destination program interleaving raw copies (with/without rename) with ordinary entries of every kind. Oracle: destination raw bytes == source raw bytes; method, CRC, sizes, timestamp words equal; permission bits equal when the source states a mode; decoded content equal where decodable; neighbours intact; strict parse of the destination. Non-trivial = a copy of non-empty data with a normally written neighbour.");
+    ctx.rule("case = source archive (crate-written program or independent-builder spec: all methods incl. ids the crate cannot decode, data descriptors, forced ZIP64, any DOS time bits, DOS/Unix/other attributes, CP437 names) opened through a reader with a generated short-read schedule x destination program interleaving raw copies (with/without rename) with ordinary entries of every kind. Oracle: destination raw bytes == source raw bytes; method, CRC, sizes, timestamp words equal; permission bits equal when the source states a mode; decoded content equal where decodable; neighbours intact; strict parse of the destination. straddle: hand-laid-out sparse sources whose declared uncompressed/compressed sizes lie on either side of 4 GiB (e.g. 5 GiB+123 -> 1500 bytes), copied between two ordinary entries; local header, central record and both readers must state the source sizes. Non-trivial = a copy of non-empty data with a normally written neighbour.");
     ctx.assume("a source without a Unix mode (unix_mode()==None) states no permission bits, so nothing is compared for it; file-type bits are not part of the claim");
     let n = ctx.q(8000, 80000);
     let maxc = ctx.q(200_000u32, 4 << 20);
@@ -249,4 +318,22 @@ pub fn run(ctx: &mut Ctx) {
             }
         },
     );
+    // ZIP64-sized sources whose two sizes lie on different sides of 4 GiB
+    #[derive(Clone, Debug, Serialize, Deserialize, Hash)]
+    struct Straddle(Vec<(u64, u64)>);
+    const G: u64 = 1 << 32;
+    let sets: Vec<Vec<(u64, u64)>> = ctx.q(
+        vec![vec![((5 << 30) + 123, 1500)], vec![(G - 1, 77), (G, 78), (G + 1, 79), (G - 2, 80)], vec![(0xFFFF_FFFF, 0), (1, 1)]],
+        vec![vec![((5 << 30) + 123, 1500)], vec![(G - 1, 77), (G, 78), (G + 1, 79), (G - 2, 80)], vec![(0xFFFF_FFFF, 0), (1, 1)], vec![(100, G + 10)], vec![(G + 1, G + 1), (3, 3)], vec![(G - 1, G - 1)]],
+    );
+    ctx.max_shrink_iters = 0;
+    ctx.enumerate::<Straddle>("straddle", sets.len() as u64, &|i| Straddle(sets[i as usize].clone()), &|s: &Straddle, info: &mut Info| {
+        info.nontrivial = true;
+        info.label_if(s.0.iter().any(|(u, c)| (*u >= G - 1) != (*c >= G - 1)), "sizes-straddle-4GiB");
+        match catch(|| check_straddle(&s.0)) {
+            Ok(r) => Verdict::from_result(r),
+            Err(p) => Verdict::Fail(format!("PANIC: {p}")),
+        }
+    });
+    ctx.max_shrink_iters = 2048;
 }
